@@ -1,6 +1,7 @@
 package main
 
 import (
+	"fmt"
 	"bytes"
 	"crypto/sha256"
 	"reflect"
@@ -137,6 +138,36 @@ func queryStability(o ReadOut, r Res) {
 	r["stab"] = st
 }
 
+// parseAgain: the value a parser returned is the caller's.  Everything the caller can reach from it (and the private input buffer it
+// may view) is overwritten in place; then the same bytes are parsed once more from a fresh buffer.  The second result has to be the
+// first one again: a parser that hands out shared structures (an interned certificate, a cached key certificate per type pair, a
+// recycled value) shows here.
+func parseAgain(rd Reader, a Args, o ReadOut, r Res) {
+	r["again"] = map[string]any{"done": false, "same": true, "what": ""}
+	if !o.OK || o.Val == nil {
+		return
+	}
+	ser1 := append([]byte{}, o.Ser...)
+	acc1 := fmt.Sprintf("%v", o.Acc)
+	n := scribbleReachable(o.Val)
+	var o2 ReadOut
+	if msg := guarded(func() { o2 = rd(append([]byte{}, a.Bytes("in")...), a) }); msg != "" {
+		return
+	}
+	what := ""
+	switch {
+	case o2.OK != o.OK:
+		what = "accepted / refused"
+	case o2.SerOK != o.SerOK || !bytes.Equal(o2.Ser, ser1):
+		what = "serialisation"
+	case len(o2.Rem) != len(o.Rem):
+		what = "remainder"
+	case fmt.Sprintf("%v", o2.Acc) != acc1:
+		what = "accessors"
+	}
+	r["again"] = map[string]any{"done": true, "same": what == "", "what": what, "scribbled": n}
+}
+
 func (o ReadOut) res() Res {
 	r := Res{"ok": o.OK, "hasrem": o.HasRem, "serok": o.SerOK}
 	if o.OK && o.SerOK {
@@ -202,6 +233,9 @@ func init() {
 		r["in_unchanged"] = bytes.Equal(in, a.Bytes("in"))
 		r["append_unsafe"] = appendSafety(o, in, a.Bytes("in"))
 		addSha(r, a)
+		if a.Str("h") == "" {
+			parseAgain(rd, a, o, r)
+		}
 		return r
 	})
 	// Twins: several entry points on (private copies of) the same input.
@@ -219,6 +253,7 @@ func init() {
 			queryStability(o, r)
 			r["in_unchanged"] = bytes.Equal(in, a.Bytes("in"))
 			r["append_unsafe"] = appendSafety(o, in, a.Bytes("in"))
+			parseAgain(rd, a, o, r)
 			r["fn"] = fn
 			results = append(results, r)
 		}
